@@ -386,6 +386,7 @@ pub fn property() -> Property {
             Tier::Thorough => 1500.0,
         },
         info: || PropInfo {
+            floors: vec![],
             rule: "one run = a real writer, 1..12 scripted storers (ack / 203 / 205 / 301 / 302 / other / silence per plan; six plan families incl. 3xx majorities and all-silent) plus 0..2 real servers, response delays 0..300 ms, loss / duplication / delay-beyond-timeout faults; all four put kinds. 1 run in 60 (25 thorough) is a >255-replica run: 300 (600) token-bearing extra nodes gathered with get_closest_nodes, exactly 255/256/257/511/512/513 of them acknowledge, optionally one 301. The verdict is recomputed from the trace (first copies of acks/errors per store request, RTT < 500 ms = in time). Non-trivial = store requests were sent; distinct = (kind, #acks in time, #late, #301, #302, #other, #stores, delivery order)".into(),
             assumptions: vec![
                 "acks with RTT >= 500 ms are 'maybe counted': Ok is accepted if any ack (in time or late) was delivered, an error only flagged if an in-time ack exists".into(),
